@@ -18,6 +18,7 @@ SCEN = {
     "truncate": ("truncate_then_read::<{H}>({n1}, {n2}, {s}, {b})", "after set_len(o2) reads at o2 through a reader that cached the old record are refused, o1 still reads back"),
     "trunc_rewrite": ("truncate_rewrite::<{H}>({n1}, {n2}, {s}, {b})", "after set_len(o2) + append + sync, a read at o2 through a reader that cached the old record returns the NEW record"),
     "replace": ("replace_header_then_read({n1}, {n2}, {s}, {b}, {b})", "after replace_header through the same reader, sequential/random reads return the new header and the bytes on disk"),
+    "iterlight": ("iterate_light::<{H}>({n1}, {n2}, {s}, {b})", "iteration from a record boundary yields exactly the one flushed record, then None (second record unsynced)"),
     "iterate": ("iterate_flushed::<{H}>({n1}, {n2}, {s}, {b})", "iteration from a record boundary yields exactly the flushed records, then None (third record unsynced)"),
 }
 
@@ -36,19 +37,25 @@ def instances(shapes):
 def native_replay(rp, workroot):
     import re
     from engine.core import replay_bin
-    m = re.match(r"c18_(reusez|reuse|truncate|trunc_rewrite|replace)_h(\d)_(\d+)_(\d+)_s(\d+)_([tf])", rp["harness"])
+    m = re.match(r"c18_(reusez|reuse|truncate|trunc_rewrite|replace|iterate|iterlight)_h(\d)_(\d+)_(\d+)_s(\d+)_([tf])", rp["harness"])
     if not m:
         return None, "no native reproducer for this scenario (solver counterexample only)"
     sc, H, a, b, s, q = m.groups()
-    sc = {"trunc_rewrite": "truncate_rewrite", "reusez": "reuse_oversized"}.get(sc, sc)
+    sc = {"trunc_rewrite": "truncate_rewrite", "reusez": "reuse_oversized", "iterlight": "iterate"}.get(sc, sc)
     return replay_bin("c18", [sc, a, b, s, 1 if q == "t" else 0])
 
 
 def generate(d):
-    lines = "\n".join(f"    fs_harness!(cheap, {n}, {UNW}, {{ {c} }});" for n, c, _ in instances(SHAPES_QUICK + SHAPES_MORE + [SHAPE_OVERSIZED]))
+    lines = "\n".join(f"    fs_harness!({'konst' if '_iter' in n else 'cheap'}, {n}, {UNW}, {{ {c} }});" for n, c, _ in instances(SHAPES_QUICK + SHAPES_MORE + [SHAPE_OVERSIZED]))
     # PAGE_SIZE is scaled to 16 here (not 8 as for C17): the rounded-up tail of an oversized read-ahead fill must be able to
     # hold a whole record head (8 bytes) + small record, as it can with the real 4 KiB page (seed C18-2 hides otherwise)
-    return units.seglog_overlay(d, ["seglog/fmodel.rs", "seglog/c18.rs"], scale={"PAGE_SIZE": 16}, consts={"DISK_BYTES": DISK, "MAXD": MAXD, "HAVOC": HAVOC, "INSTANCES": lines})
+    info = units.seglog_overlay(d, ["seglog/fmodel.rs", "seglog/c18.rs"], scale={"PAGE_SIZE": 16}, consts={"DISK_BYTES": DISK, "MAXD": MAXD, "HAVOC": HAVOC, "INSTANCES": lines})
+    # observation hook (in the overlay only): the iterator's private position, so that a wrong advance is reported at the step
+    # that makes it instead of through a second read at a garbage offset (which does not fit in memory)
+    rd = d / "seglog" / "src" / "read.rs"
+    rd.write_text(rd.read_text() + "\n#[cfg(kani)]\nimpl<const H: usize> Iter<'_, H> {\n    pub(crate) fn verif_offset(&self) -> u64 { self.offset }\n}\n")
+    info["rewrites"].append("append: #[cfg(kani)] Iter::verif_offset() accessor for the private field `offset` (read-only observation)")
+    return info
 
 
 ENC = ("seglog::read::Reader::read_record", "seglog::read::Reader::read_record_sequential", "seglog::read::ReadAheadBuf::{read,fill,overlaps,invalidate}",
@@ -70,18 +77,13 @@ def spec(tier, seed):
     over = [x for x in instances([SHAPE_OVERSIZED]) if x[0].startswith("c18_reusez_")]
     quick = quick + over
     for name, _, obl in quick:
-        # iteration over three records is the heaviest scenario: thorough tier only
-        hs.append(Harness(name, obligation=obl, encodes=ENC, bounds=B, timeout_s=600 if "_iterate_" not in name else 2400,
-                          tiers=("quick", "thorough") if "_iterate_" not in name else ("thorough",)))
+        hs.append(Harness(name, obligation=obl, encodes=ENC, bounds=B, timeout_s=600))
     for i, (name, _, obl) in enumerate(more):
-        # iteration over three records is heavy: only two of the additional shapes keep it
-        if "_iterate_" in name and not (name.startswith("c18_iterate_h0_0_1_s0") or name.startswith("c18_iterate_h1_0_0_s0")):
-            continue
         hs.append(Harness(name, obligation=obl, encodes=ENC, bounds=B, timeout_s=1800, tiers=("thorough",)))
     hs.append(Harness("c18_vacuity_witness", expect_fail=True, obligation="twin: file model write/read_at reachable", timeout_s=120))
     u = Unit("seglog_c18", generate, hs, kani_flags=("-Z", "stubbing"), jobs=2 if tier == "thorough" else 3, workers=4 if tier == "thorough" else 5, crate_subdir="seglog", harness_prefix="verif::c18::", playback=False)
     return PropSpec("C18", [u], native_replay=native_replay,
-                    assumptions=["file model: POSIX regular file, no short writes / IO errors", "CRC replaced by a cheap position-weighted sum (CRC is C17's subject)",
+                    assumptions=["file model: POSIX regular file, no short writes / IO errors", "CRC replaced by a cheap GF(2)-linear fold (CRC is C17's subject); in the two iteration scenarios by a constant, so that every record checks and the iterator's control flow stays concrete (a symbolic checksum verdict makes Iter.offset symbolic and the second read undecidable in memory)",
                                  "ReadError::Io / WriteError::Io carry a unit payload instead of io::Error",
                                  "one reader interleaved with the single writer at operation granularity; bytes beyond the flushed offset are arbitrary when the reader fills its cache (stands for a writer in mid-write)"],
                     outside_claim=["real buffer sizes (64 KiB read-ahead)", "record lengths other than the listed shapes", "a second reader object observing replace_header of another reader", "memory orders weaker than SC"],
